@@ -14,6 +14,7 @@ def dispatch (p : String) (j : Json) : Except String Verdict :=
   | "C02" => Hist.check "C02" j
   | "C03" => Hist.check "C03" j
   | "C04" => Hist.check "C04" j
+  | "C19" => Hist.check "C19" j
   | "C08" => C08.check j
   | "C09" => C09.check j
   | "C10" => C10.check j
